@@ -12,6 +12,8 @@ def gen_random(cs, rnd, n):
         cfg = PL.rand_cfg(rnd, "group")
         if cfg["group"]["k"] == "by" and rnd.random() < 0.7:
             cfg["selects"] = []
+        if cfg["group"]["k"] == "by" and cfg["sorts"] and rnd.random() < 0.3:
+            cfg["sorts"][rnd.randrange(len(cfg["sorts"]))] = {"e": PL.field("g"), "desc": rnd.random() < 0.3}     # sorted by the group key itself
         nrows = rnd.choice([0, 0, 1, 2, 3, 5, 8, 13, 25, 40])
         rows = PL.rand_rows(rnd, nrows, items=0.6 if cfg["split"] != PL.NOE else 0.0, few_keys=True)
         if cfg["unique"]:
@@ -40,6 +42,9 @@ def check(tier, seed, replay=None):
         quick = tier == "quick"
         PC.model_check(chk, ["group"], 3 if quick else 4, ["OneCollection", "Composition"], workers=8 if quick else 12)
         PC.expect_dev(chk, "DevLimiterNoComplete", "group", 2, "OneCollection")
+        PC.expect_dev(chk, "DevSortEmptyNoComplete", "group", 2, "OneCollection")
+        PC.expect_dev(chk, "DevSortBreakStops", "group", 3, "OneCollection")
+        PC.expect_dev(chk, "DevSortEmptyNoComplete", "group", 2, "CompleteDiscipline")
         nb = 0
         for v in PC.simulate("group", 6, 400 if quick else 6000, seed):
             rows = [PL.ast_of_enc(x) for x in v["input"]]
